@@ -100,6 +100,23 @@ func (sv *Solver) solve(un *Unit, o *Obl) {
 	if len(file) > 200 {
 		file = filepath.Join(sv.workDir, fmt.Sprintf("%s_%x.smt2", sanitize(o.Name)[:120], hashStr(o.Name)))
 	}
+	if !o.Cover {
+		// stage 0: hypotheses pruned to the heap components the goal mentions; only `unsat` is conclusive
+		if pruned, dropped := un.smtPruned(o); dropped {
+			file0 := strings.TrimSuffix(file, ".smt2") + ".pruned.smt2"
+			if err := os.WriteFile(file0, []byte(pruned), 0o644); err == nil {
+				save := sv.timeout
+				o.SmtFile = file0
+				sv.solveFileT(un, o, file0, 4)
+				_ = save
+				if o.Status == "discharged" {
+					o.Output = "unsat (hypotheses pruned to the components the goal mentions)"
+					return
+				}
+				o.Status, o.Output, o.Model, o.Solver, o.Time = "", "", "", "", 0
+			}
+		}
+	}
 	text := un.smtFor(o, true)
 	if err := os.WriteFile(file, []byte(text), 0o644); err != nil {
 		o.Status, o.Output = "error", err.Error()
@@ -109,7 +126,9 @@ func (sv *Solver) solve(un *Unit, o *Obl) {
 	sv.solveFile(un, o, file)
 }
 
-func (sv *Solver) solveFile(un *Unit, o *Obl, file string) {
+func (sv *Solver) solveFile(un *Unit, o *Obl, file string) { sv.solveFileT(un, o, file, sv.timeout) }
+
+func (sv *Solver) solveFileT(un *Unit, o *Obl, file string, timeout int) {
 	ctx, cancel := context.WithCancel(context.Background())
 	defer cancel()
 	results := make(chan solveResult, len(solvers))
@@ -125,7 +144,7 @@ func (sv *Solver) solveFile(un *Unit, o *Obl, file string) {
 				results <- solveResult{s.name, "cancelled", "", 0}
 				return
 			}
-			results <- runSolver(ctx, s, file, sv.timeout, strs)
+			results <- runSolver(ctx, s, file, timeout, strs)
 		}(s)
 	}
 	go func() { wg.Wait(); close(results) }()
@@ -173,7 +192,7 @@ func (sv *Solver) solveFile(un *Unit, o *Obl, file string) {
 		sv.mu.Unlock()
 		return
 	}
-	if !decided && o.Cover && !strings.HasSuffix(o.SmtFile, ".cex.smt2") {
+	if !decided && o.Cover && !strings.HasSuffix(file, ".cex.smt2") {
 		// reachability with the quantified hypotheses dropped (they make `sat` undecidable for the solvers)
 		file2 := strings.TrimSuffix(file, ".smt2") + ".cex.smt2"
 		if err := os.WriteFile(file2, []byte(un.smtForOpt(o, true, true)), 0o644); err == nil {
@@ -185,7 +204,7 @@ func (sv *Solver) solveFile(un *Unit, o *Obl, file string) {
 			return
 		}
 	}
-	if !decided && !o.Cover && !strings.HasSuffix(o.SmtFile, ".cex.smt2") {
+	if !decided && !o.Cover && !strings.HasSuffix(file, ".cex.smt2") && !strings.HasSuffix(file, ".pruned.smt2") {
 		// second stage (counterexample search): quantified hypotheses dropped
 		first := o.Output
 		var parts []string
